@@ -31,7 +31,10 @@ def base_grids():
                       [('str', []), ('uri', []), ('ref', [])],
                       [(('str', u'é€'), ('uri', 'http://x/y?z=1&w=2;v'), ('ref', 'a-b:c.d~e_f', None)),
                        (('str', ''), ('uri', 'a`b\\c'), ('ref', 'r1', 'Dis "x"')),
-                       (('bin', 'text/plain'), N.NULL, ('ref', 'r2', ''))]))
+                       (('bin', 'text/plain'), N.NULL, ('ref', 'r2', '')),
+                       # characters that are legal raw inside ZINC text but that generic text tooling treats as
+                       # line breaks / blanks / marks: DEL, NEL, NBSP, LS, PS, BOM, a non-character, an astral one
+                       (('str', u'\x7f\x85\xa0\u2028\u2029\ufeff\uffff\U0001f600'), ('uri', u'u\x7f\x85\xa0\u2028\u2029\ufeff'), ('ref', 'r3', u'\x85\u2028\u3000'))]))
     # 3: temporal + coordinates
     B.append(N.mkgrid('2.0', [('ts', _dt('UTC', 2020, 6, 1, 12, 0, 0))],
                       [('d', []), ('t', []), ('dt', []), ('c', [])],
